@@ -105,8 +105,8 @@ class DeviceParameters(object):
             self.T2 = np.array([np.loadtxt(location + self.f_T2)])
             self.p = np.array([np.loadtxt(location + self.f_p)])
             self.rout = np.array([np.loadtxt(location + self.f_rout)])
-            self.p_int = np.array([np.loadtxt(location + self.f_p_int)])
-            self.t_int = np.array([np.loadtxt(location + self.f_t_int)])
+            self.p_int = np.loadtxt(location + self.f_p_int, ndmin=2)
+            self.t_int = np.loadtxt(location + self.f_t_int, ndmin=2)
             self.tm = np.array([np.loadtxt(location + self.f_tm)])
         else:
             self.T1 = np.loadtxt(location + self.f_T1)
